@@ -48,7 +48,8 @@ func (i dirItem) findDirEntry(item *dirItem, joliet bool) *directoryEntry {
 	identifier := makeIdentifier(item.name, joliet)
 
 	for i := range entries {
-		if entries[i].Identifier == identifier {
+		// a file may have the same identifier (i.e. names differ only in case)
+		if entries[i].FileFlags&dirFlagDir > 0 && entries[i].Identifier == identifier {
 			return &entries[i]
 		}
 	}
